@@ -137,7 +137,12 @@ theorem filter_params_eq {σ} (n : B) (ps : List (Param σ)) :
 theorem OpShape.map {route : B} {o : Operation IR} (f : IR → Schema) (h : OpShape route o) : OpShape route (o.map f) := by
   have hp : pairsOf (o.map f).params = pairsOf o.params := by
     simp [pairsOf, Operation.map, Param.map, Function.comp_def]
-  refine ⟨?_, by rw [hp]; exact h.nodup, by rw [hp]; exact h.route, ?_, ?_⟩
+  refine ⟨?_, by rw [hp]; exact h.nodup, by rw [hp]; exact h.route, ?_, ?_, ?_⟩
+  rotate_left 3
+  · intro p hp'
+    simp only [Operation.map, mem_map] at hp'
+    obtain ⟨p0, hp0, rfl⟩ := hp'
+    exact h.styles p0 hp0
   · intro p hp'
     simp only [Operation.map, mem_map] at hp'
     obtain ⟨p0, hp0, rfl⟩ := hp'
